@@ -189,7 +189,10 @@ def run(prog, tier):
     # the updaters run after the store: a positional look-up that their own guard does not cover throws on a
     # state the guard let through, i.e. after the object was modified
     import indexsites
-    ups = [f for f in prog.repo_funcs() if f.qname in ('ezc3d::c3d::updateHeader', 'ezc3d::c3d::updateParameters')]
+    roots = [f for f in prog.repo_funcs() if f.qname in ('ezc3d::c3d::updateHeader', 'ezc3d::c3d::updateParameters')]
+    # ... and the members of c3d / file-local helpers they are split into
+    ups = [prog.funcs[u] for u in sorted(prog.reachable_from(roots)) if u in prog.funcs and not prog.funcs[u].implicit and
+           (prog.funcs[u].cls == 'ezc3d::c3d' or prog.funcs[u].rec.get('internal'))]
     n = indexsites.const_accessor_rule(prog, res, ups, rule_name='updater-positions')
-    res.minimum('guarded constant positions in the updaters', n, 4)
+    res.minimum('guarded constant positions in the updaters', n, 3)
     return res
